@@ -79,6 +79,7 @@ func (k Keeper) BeginBlockLaunchConsumers(ctx sdk.Context) error {
 	if err != nil {
 		return errorsmod.Wrapf(ccv.ErrInvalidConsumerState, "getting consumers ready to laumch: %s", err.Error())
 	}
+	ccv.VerifTrace(ctx, "PLaunchDue")
 	if len(consumerIds) > 0 {
 		// get the bonded validators from the staking module
 		bondedValidators, err = k.GetLastBondedValidators(ctx)
@@ -573,6 +574,7 @@ func (k Keeper) BeginBlockRemoveConsumers(ctx sdk.Context) error {
 	if err != nil {
 		return errorsmod.Wrapf(ccv.ErrInvalidConsumerState, "getting consumers ready to stop: %s", err.Error())
 	}
+	ccv.VerifTrace(ctx, "PRemoveDue")
 	for _, consumerId := range consumerIds {
 		// delete consumer chain in a cached context to abort deletion in case of errors
 		cachedCtx, writeFn := ctx.CacheContext()
